@@ -178,6 +178,30 @@ def _prints(out: str):
         pos = k + 1
 
 
+def run_sharded(module: str, cfg_of, lo: int, hi: int, shards: int = 16, **kw) -> TlcResult:
+    """Run a seed-range generator as several TLC processes over sub-ranges (TLC evaluates the
+    invariants of initial states on one thread); cfg_of(lo, hi) -> config text.  Results are merged."""
+    import concurrent.futures as cf
+    n = hi - lo + 1
+    shards = max(1, min(shards, n // 8 or 1))
+    step = (n + shards - 1) // shards
+    ranges = [(a, min(a + step - 1, hi)) for a in range(lo, hi + 1, step)]
+    with cf.ThreadPoolExecutor(max_workers=len(ranges)) as ex:
+        results = list(ex.map(lambda r: run(module, cfg_text=cfg_of(r[0], r[1]), workers=2, heap='2g', **kw), ranges))
+    out = results[0]
+    for r in results[1:]:
+        out.generated += r.generated
+        out.distinct += r.distinct
+        out.prints += r.prints
+        out.wall_s = max(out.wall_s, r.wall_s)
+        out.violated = out.violated or r.violated
+        out.error = out.error or r.error
+        if r.violated or r.error:
+            out.out += r.out
+        out.rc = out.rc or r.rc
+    return out
+
+
 def require_ok(res: TlcResult, what: str) -> TlcResult:
     if res.error or res.rc != 0 and res.violated is None:
         raise TlcFailure('%s: TLC failed: %s\n%s' % (what, res.error, res.out[-3000:]))
